@@ -3,7 +3,7 @@
    lists of thread choices, any number of producers, any flow keys, any channel capacity, sync.Pool
    handing back any channel that was put). *)
 From Coq Require Import List Arith Bool ZArith.
-From Dae Require Import C13_Spec C13_Model C13_Proofs C13_Inv C13_EpModel C13_EpProofs C13_EpTuples C13_EpFine C13_EpFineWit C13_TrFine C13_TrFineProofs.
+From Dae Require Import C13_Spec C13_Model C13_Proofs C13_Inv C13_EpModel C13_EpProofs C13_EpTuples C13_EpFine C13_EpFineWit C13_TrFine C13_TrFineProofs C13_Ingress C13_IngressProofs C13_IngressCor.
 Import ListNotations.
 
 (* The full statement: for every schedule the history satisfies the spec's safety clause (per flow the
@@ -87,6 +87,37 @@ Theorem C13_tuple_wait_once_refuted :
   exists thr sched, deletes_ok (tr_run false thr sched) = false /\ exists k, refs_match (tr_run false thr sched) k = false.
 Proof. exact C13_tuple_wait_once_refuted_proof. Qed.
 Print Assumptions C13_tuple_wait_once_refuted.
+
+(* ---- ingress batch reader (C13_Ingress.v: udp_ingress_batch.go, the ReadBatch -> Take -> EmitTask hand-off) ---- *)
+
+(* For every number of slots and EVERY interleaving of ReadBatch (any datagrams, with or without a valid source
+   address), Take of any index, task runs and Close: no buffer is returned to the pool twice; a buffer handed
+   to a task is never re-attached to a slot (one owner per buffer) and is not in the pool while owned; a task
+   handles exactly the payload of the datagram that was read for it; there is one task per taken datagram, in
+   order; and at rest every buffer is back in the pool. *)
+Theorem C13_ingress_buffer_ownership :
+  forall (nslots : nat) (ops : list iop), ingress_ok (irun true true nslots ops).
+Proof. exact C13_ingress_buffer_ownership_proof. Qed.
+Print Assumptions C13_ingress_buffer_ownership.
+
+(* Composition with the task pool: a taken datagram becomes exactly one accepted task (EmitTask); by
+   C13_no_dup_no_invent_partial / C13_in_order_partial every accepted task of a flow is started once, in
+   acceptance order (outside the recorded idle-GC window); by the statement below what the tasks handle is,
+   task by task in Take order, what was received — so per flow the handled payload sequence is the received
+   datagram sequence. *)
+Theorem C13_ingress_handled_is_received :
+  forall nslots ops, let s := irun true true nslots ops in
+    forallb t_done (i_tasks s) = true -> map t_handled (i_tasks s) = i_taken s.
+Proof. exact C13_ingress_handled_is_received_proof. Qed.
+Print Assumptions C13_ingress_handled_is_received.
+
+(* "Take keeps slot.buf" (the next ReadBatch re-attaches the buffer the earlier packet's task still owns): the
+   earlier packet's payload is replaced, the later one handled twice, the buffer returned twice. *)
+Theorem C13_ingress_take_keeps_buf_refuted :
+  exists nslots ops, let s := irun false false nslots ops in
+    ~ NoDup (i_puts s) /\ exists tk, In tk (i_tasks s) /\ t_done tk = true /\ t_handled tk <> t_expect tk.
+Proof. exact C13_ingress_take_keeps_buf_refuted_proof. Qed.
+Print Assumptions C13_ingress_take_keeps_buf_refuted.
 
 (* ---- endpoint pool (C13_EpModel.v: GetOrCreate, retire, Close, WriteTo, adoptGeneration, health
    invalidation, Reset, janitor sweep, time; one call = one step) ---- *)
